@@ -9,19 +9,25 @@ for n in sorted(os.listdir(os.path.join(V, "seeded"))):
         continue
     m = json.load(open(os.path.join(d, "meta.json")))
     r = json.load(open(os.path.join(d, "result.json"))) if os.path.exists(os.path.join(d, "result.json")) else {"checks": {}}
+    first = json.load(open(os.path.join(d, "result_first.json"))) if os.path.exists(os.path.join(d, "result_first.json")) else None
     for prop, c in r["checks"].items():
-        rows.append((n, prop, c["verdict"], ", ".join(c["violated_obligations"][:4]) or "-", r.get("mode", {}).get(prop, ""), m.get("summary", "")[:160].replace("|", "/")))
+        fv = (first["checks"].get(prop, {}).get("verdict", "") if first else c["verdict"])
+        rows.append((n, prop, fv, c["verdict"], ", ".join(c["violated_obligations"][:4]) or "-", r.get("mode", {}).get(prop, ""), m.get("summary", "")[:160].replace("|", "/")))
     if not r["checks"]:
-        rows.append((n, m["property"], "not run", "-", "", m.get("summary", "")[:160].replace("|", "/")))
+        rows.append((n, m["property"], "not run", "not run", "-", "", m.get("summary", "")[:160].replace("|", "/")))
 with open(os.path.join(V, "seeded", "INDEX.md"), "w") as f:
     f.write("# Seeded changes (written by independent sub-agents from the property text only)\n\n"
             "Each directory holds `patch.diff`, `demo.rs` (fails with the patch, passes without), `meta.json` (incl. my own\n"
             "re-confirmation under `confirmed`) and `result.json` (verdict of `bin/seedcheck`: the patch is applied to a scratch copy of\n"
             "/repo and the check of the broken property is run on it; `targeted` = an obligation of that check was run alone and failed,\n"
             "which decides `caught`; a targeted pass falls through to the complete check).\n\n"
-            "| seed | property | verdict | violated obligations | mode | change |\n|---|---|---|---|---|---|\n")
+            "`first verdict` is the verdict of the checks as they stood when the seed arrived (complete check of the property);\n"
+            "`verdict` is the current one, after the strengthening described in DESIGN.md section 7.2.\n\n"
+            "| seed | property | first verdict | verdict | violated obligations | mode | change |\n|---|---|---|---|---|---|---|\n")
     for r in rows:
-        f.write("| %s | %s | %s | %s | %s | %s |\n" % r)
-    n_c = sum(1 for r in rows if r[2] == "caught")
-    f.write("\n%d of %d seeded changes caught by the check of the property they break.\n" % (n_c, len(rows)))
+        f.write("| %s | %s | %s | %s | %s | %s | %s |\n" % r)
+    n_c = sum(1 for r in rows if r[3] == "caught")
+    n_f = sum(1 for r in rows if r[2] == "caught")
+    f.write("\n%d of %d seeded changes caught by the check of the property they break (%d at first sight, before any strengthening prompted by that wave; "
+            "for the first two waves the first verdicts of C02_1, C11_1, C05_1, C19_1, C16_1 were `missed`, see DESIGN.md).\n" % (n_c, len(rows), n_f))
 print(len(rows))
